@@ -13,7 +13,7 @@ types (every binary operator on every pair of scalar/vector/matrix types), const
 every type, float literals in int positions (implicit conversions folded by the optimiser), every swizzle mask of 1-4 letters
 over xyzw/rgba on every type as read and as write target (sampled in the quick tier), all generators of the other checks, the
 whole-language corpus, and a deliberately ill-typed stream (which must be rejected by the front end, not later)."""
-import copy, itertools, random
+import copy, itertools, random, zlib
 import common, implrun, progfam, proglib, gen, gen_calls, gen_vec, wholelang, lang
 
 RULE = ("operator grid: `function f(L a, R b) -> T { return a OP b; }` for 13 operators x 14 x 14 spellable types (result type from the typing "
@@ -221,7 +221,7 @@ def run_probe(run, src, ptys, origin, inputs=None):
             run.fail("link", inp, "linking the accepted program fails: %s" % type(e).__name__, key="internal:link:" + type(e).__name__); continue
         typed = irtype(run, c[1].IRModule, origin, src, opt)
         if ptys is None: continue
-        rng = random.Random(hash(src) & 0xffff)
+        rng = random.Random(zlib.crc32(src.encode()) & 0xffff)      # stable across processes (str hashes are salted)
         for k in range(3 if inputs is None else len(inputs)):
             args = {n: (rng.randrange(0, 2) if t == "idx" else value_of(rng, t)) for n, t in ptys.items()} if inputs is None else copy.deepcopy(inputs[k])
             vm = implrun.new_vm(prog)
